@@ -14,7 +14,9 @@ RULE = (
     "Recipes are accfg programs (grammar of C01, biased towards in-loop units fed by pure arith chains on induction variables, "
     "loop-carried integers and outer values; lb != 0, step != 1, several units per body, nested loops and ifs) plus 3 input vectors "
     "(trip counts 0,1,2,3,5). Input to the pass under test is the deduplicated lowering form: accfg-trace-states, accfg-dedup are "
-    "applied first. Then the real accfg-config-overlap runs. Oracle: differential execution on the CSR machine: launch/await/call "
+    "applied first; in a third of the cases 1..3 launches are then repeated (launch/await pair of the same state, later in the same block, "
+    "directly in front of the setup that consumes the state; at the same level or inside a new scf.if branch), so that a state has several "
+    "launches and users nested in regions. Then the real accfg-config-overlap runs. Oracle: differential execution on the CSR machine: launch/await/call "
     "events equal in kind, order, launch values and call arguments, and at every launch every field the input program had written holds "
     "the same value (setups are not positional events, so a setup may move before an await; an extra setup after the last iteration "
     "is allowed unless a launch observes it); plus availability: own SSA dominance walk over the result and the interpreter's "
@@ -35,6 +37,54 @@ def _shape(mod):
     return out
 
 
+def _relaunch(mod, picks):
+    """Repeat a launch/await pair of a state directly in front of the setup that consumes that state (where it is, by
+    construction, still the current one): at the same level, or inside the then-/else-branch of a new scf.if on an i1 argument.
+    Returns the number of inserted launches. The result is still a well-formed accfg program (every launch uses the state
+    in effect), but a state now has users in nested regions and more than one launch."""
+    from xdsl.dialects import scf
+    from xdsl.ir import Block, Region
+    from snaxc.dialects import accfg
+    setups = [op for op in mod.walk() if isinstance(op, accfg.SetupOp) and op.in_state is not None]
+    if not setups:
+        return 0
+    n = 0
+    for idx, kind, pc in picks:
+        S = setups[idx % len(setups)]
+        st_val = S.in_state
+        blk = S.parent_block()
+        model = None
+        for u in st_val.uses:
+            L = u.operation
+            if isinstance(L, accfg.LaunchOp) and L.parent_block() is blk and blk.get_operation_index(L) < blk.get_operation_index(S):
+                model = L
+                break
+        # only a repetition of a launch of the same state that already sits earlier in the same block: it observes exactly what that
+        # launch observes in the input program. (A launch of a loop / if result or of a loop-carried state without such a model would
+        # rely on what a field holds after the last iteration without a setup in between; the lowering's full-field form never does
+        # that and the pass does not support it.)
+        if model is None:
+            continue
+        launch = accfg.LaunchOp(list(model.operands[:-1]), list(model.param_names.data), st_val)
+        await_ = accfg.AwaitOp(launch.results[0])
+        if kind == "plain":
+            blk.insert_ops_before([launch, await_], S)
+        else:
+            f = S
+            while f is not None and f.name != "func.func":
+                f = f.parent_op()
+            conds = [a for a in f.regions[0].blocks[0].args if str(a.type) == "i1"]
+            if not conds:
+                continue
+            c = conds[pc % len(conds)]
+            body = Region(Block([launch, await_, scf.YieldOp()]))
+            empty = Region(Block([scf.YieldOp()]))
+            ifop = scf.IfOp(c, [], body, empty) if kind == "then" else scf.IfOp(c, [], empty, body)
+            blk.insert_ops_before([ifop], S)
+        n += 1
+    return n
+
+
 def prop(r):
     built = G.build(r)
     base = parse(built.text, shared_ctx())
@@ -50,6 +100,9 @@ def prop(r):
         raise Reject(f"preparation passes raised {type(e).__name__}: {str(e)[:60]}")
     if dominance_errors(base):
         raise Reject("preparation passes produced a use before def (C01's business)")
+    relaunched = _relaunch(base, r["relaunch"]) if r.get("relaunch") else 0
+    if relaunched:
+        base.verify()
     opt = base.clone()
     try:
         with time_limit(10):
@@ -98,6 +151,8 @@ def prop(r):
     if n_exec == 0:
         raise Outside("all executions exceeded the step budget")
     cls = sorted(built.features) + sorted(trips_seen) + (["moved"] if changed else ["unmoved"]) + (["loop_level_move"] if loop_level else [])
+    if relaunched:
+        cls.append("relaunch-inserted")
     return Info(nontrivial=bool(changed and multi), classes=tuple(cls), evals=n_exec,
                 sample=dict(before=to_text(base), after=to_text(opt)))
 
@@ -106,6 +161,9 @@ def prop(r):
 def strat(draw, tier):
     r = draw(G.program(tier))
     r["hoist"] = draw(st.sampled_from([True, True, False]))
+    if draw(st.integers(0, 2)) == 0:
+        r["relaunch"] = draw(st.lists(st.tuples(st.integers(0, 11), st.sampled_from(["plain", "then", "else", "then"]), st.integers(0, 3)).map(list),
+                                      min_size=1, max_size=3))
     return r
 
 
